@@ -310,6 +310,7 @@ struct Model {
             else if (name == "sus") q_sus(q, r);
             else if (name == "vertex") q_vertex(q, r);
             else if (name == "truncate") q_truncate(q, r);
+            else if (name == "parts") q_parts(q, r);
             else r["error"] = "unknown query";
         });
         if (!ex.empty()) r["ex"] = ex;
@@ -503,6 +504,52 @@ struct Model {
             mx.push_back(dstr(m));
         }
         r["retained"] = ret; r["maxw"] = mx; r["beta"] = beta; r["eps"] = q["eps"];
+    }
+
+    // which world stripes (block tuples) the observables are assembled from, for the current retain flags of the density matrix
+    void q_parts(const json& q, json& r) {
+        std::string beta = beta_str(q.at("beta"));
+        DensityMatrix* D = dm(beta);
+        FieldOperatorContainer* C = ops();
+        if (!D || !C) return;
+        r["M"] = M; r["beta"] = beta;
+        json g = json::array(), x = json::array(), su = json::array(), ea = json::array();
+        for (const json& p : q.value("pairs", json::array())) {
+            GreensFunction G(*S, *H, C->getAnnihilationOperator(p[0].get<int>()), C->getCreationOperator(p[1].get<int>()), *D);
+            G.prepare();
+            json ps = json::array();
+            for (GreensFunctionPart* gp : G.parts) ps.push_back(json::array({int(gp->HpartOuter.getBlockNumber()), int(gp->HpartInner.getBlockNumber())}));
+            // every block pair <L|c_i|R><R|c^+_j|L> the two operators offer, whether selected or not
+            json cand = json::array();
+            const FieldOperator::BlocksBimap& cb = C->getAnnihilationOperator(p[0].get<int>()).getBlockMapping();
+            const FieldOperator::BlocksBimap& xb = C->getCreationOperator(p[1].get<int>()).getBlockMapping();
+            for (auto it = cb.left.begin(); it != cb.left.end(); ++it)
+                for (auto jt = xb.left.begin(); jt != xb.left.end(); ++jt)
+                    if (int(it->first) == int(jt->second) && int(it->second) == int(jt->first)) cand.push_back(json::array({int(it->first), int(it->second)}));
+            g.push_back({{"ij", p}, {"parts", ps}, {"cand", cand}, {"vanishing", G.isVanishing()}});
+        }
+        for (const json& qd : q.value("quads", json::array())) {
+            TwoParticleGF X(*S, *H, C->getAnnihilationOperator(qd[0].get<int>()), C->getAnnihilationOperator(qd[1].get<int>()),
+                            C->getCreationOperator(qd[2].get<int>()), C->getCreationOperator(qd[3].get<int>()), *D);
+            X.prepare();
+            json ps = json::array();
+            for (TwoParticleGFPart* pp : X.parts)
+                ps.push_back(json::array({int(pp->Hpart1.getBlockNumber()), int(pp->Hpart2.getBlockNumber()), int(pp->Hpart3.getBlockNumber()), int(pp->Hpart4.getBlockNumber()),
+                                          int(pp->Permutation.perm[0]), int(pp->Permutation.perm[1]), int(pp->Permutation.perm[2])}));
+            x.push_back({{"q", qd}, {"parts", ps}});
+        }
+        for (const json& qd : q.value("sus", json::array())) {
+            QuadraticOperator A(*IC, *S, *H, qd[0].get<int>(), qd[1].get<int>()); A.prepare(); A.compute();
+            QuadraticOperator B(*IC, *S, *H, qd[2].get<int>(), qd[3].get<int>()); B.prepare(); B.compute();
+            Susceptibility X(*S, *H, A, B, *D); X.prepare();
+            json ps = json::array();
+            for (SusceptibilityPart* sp : X.parts) ps.push_back(json::array({int(sp->HpartOuter.getBlockNumber()), int(sp->HpartInner.getBlockNumber())}));
+            su.push_back({{"q", qd}, {"parts", ps}});
+        }
+        r["gf"] = g; r["chi"] = x; r["sus"] = su;
+        json ret = json::array();
+        for (int b = 0; b < S->NumberOfBlocks(); ++b) ret.push_back(D->isRetained(BlockNumber(b)));
+        r["retained"] = ret;
     }
 
     void q_gf(const json& q, json& r) {
